@@ -156,6 +156,12 @@ impl ConnBuffer {
     }
 
     fn write_elem(&mut self, left: i16, right: i16, cost: i16) -> DicWriteResult<()> {
+        if left < 0 || left >= self.num_left {
+            return Err(BuildFailure::InvalidConnSize("left", left));
+        }
+        if right < 0 || right >= self.num_right {
+            return Err(BuildFailure::InvalidConnSize("right", right));
+        }
         let index = right as usize * self.num_left as usize + left as usize;
         let index = index * 2;
         let bytes = cost.to_le_bytes();
